@@ -23,6 +23,7 @@ RULE = (
     "enum_blaze: every boolean n x n matrix with a perfect matching for n<=4 (harness augmenting-path test), each "
     "passed to blaze() with default ids and with deterministic non-identity id labelings; blaze_sampled: n in 5..30, "
     "families planted block-triangular then row/column permuted, (permuted) triangular, dense, sparse-with-matching, "
+    "wide-and-shallow (n up to 40: single-unknown equations plus a short chain, permuted), "
     "with none/identity/permuted/non-contiguous ids; steady_blocks: small Simultaneous models whose steady incidence "
     "is a drawn matrix (split_into_blocks and solve_steady(split_into_blocks=True)). A matrix case is non-trivial iff "
     "the matrix is not already lower triangular and its irreducible block structure (harness strong components) has "
@@ -428,6 +429,20 @@ def _draw_structured_rows(draw, n, family):
         dlow = draw(st.sampled_from(_DENSITIES))
         rows = [(1 << i) | _draw_bits(draw, i, dlow) for i in range(n)]
         mode = draw(st.sampled_from(("both", "both", "rows", "cols", "reverse", "none")))
+    elif family == "wide_shallow":
+        # many single-unknown equations, then a short chain that uses a few of them: one peeling step removes
+        # almost everything and leaves two to four rows and columns at arbitrary positions
+        tail = draw(st.integers(2, 4))
+        head = n - tail
+        rows = [1 << i for i in range(head)]
+        for i in range(head, n):
+            r = 1 << i
+            for j in draw(st.lists(st.integers(0, head - 1), min_size=1, max_size=3)):
+                r |= 1 << j
+            if i > head:
+                r |= 1 << (i - 1)
+            rows.append(r)
+        mode = draw(st.sampled_from(("both", "both", "rows", "cols")))
     elif family == "dense":
         d = draw(st.sampled_from(("1/2", "3/4", "7/8")))
         match = draw(st.permutations(ident))
@@ -464,7 +479,9 @@ def _draw_ids(draw, n):
 @st.composite
 def _sampled_case(draw, lo=5, hi=30):
     n = draw(st.one_of(st.integers(lo, min(hi, 10)), st.integers(lo, min(hi, 16)), st.integers(lo, hi)))
-    family = draw(st.sampled_from(("planted", "planted", "planted", "triangular", "dense", "sparse", "sparse")))
+    family = draw(st.sampled_from(("planted", "planted", "planted", "triangular", "dense", "sparse", "sparse", "wide_shallow")))
+    if family == "wide_shallow":
+        n = draw(st.integers(max(lo, 6), max(hi, 40)))
     rows = _draw_structured_rows(draw, n, family)
     he, eids = _draw_ids(draw, n)
     hq, qids = _draw_ids(draw, n)
@@ -479,7 +496,7 @@ def _n_label(n):
         return "n_5-8"
     if n <= 16:
         return "n_9-16"
-    return "n_17-30"
+    return "n_17-30" if n <= 30 else "n_31-40"
 
 
 def _classify_sampled(case):
